@@ -3,4 +3,5 @@ pub mod c04;
 pub mod c05;
 pub mod c08;
 pub mod c09;
+pub mod c19;
 pub mod c20;
